@@ -318,6 +318,13 @@ class Run(object):
             rec['site'] = _tb_site(e)
         rec['t1'] = w.now
         rec['cost'] = w.cost_total - rec['cost0']
+        if self.scn.get('transport') == 'pty' and hasattr(child, 'eof') and kind not in ('close',) and not getattr(child, 'closed', False):
+            # spawn.eof(): 'True if the EOF exception was ever raised' (public, pty only)
+            try:
+                rec['eof_flag'] = bool(child.eof())
+                rec['hung_up'] = self.ended_now() if hasattr(self, 'ended_now') else None
+            except Exception as e:
+                rec['eof_flag'] = e
         rec['c1'] = len(child.chunks) if child is not None and hasattr(child, 'chunks') else 0
         self.ops.append(rec)
         return rec
